@@ -1545,7 +1545,7 @@ func ruleSelectionResetOnDelete(c *report.Ctx) {
 // ruleNoMemoryTipUnderUpdate (C01/C18/C06): the follower's in-memory tip is not written by code that runs inside a write transaction.
 func ruleNoMemoryTipUnderUpdate(c *report.Ctx) {
 	p := c.P
-	c.Rule("memory-tip-outside-transaction", "nothing reachable from the closure of a write transaction stores NtfnsHandler.bestBlock: the in-memory tip moves only after the commit succeeded, so a failed commit is retried through the reorg path", 5)
+	c.Rule("memory-tip-outside-transaction", "nothing reachable from the closure of a write transaction stores NtfnsHandler.bestBlock or queues a background task: in-memory effects happen only after the commit succeeded, so a failed commit is retried / reported without having been acted upon", 5)
 	nh := p.Type(pkgWallet, "NtfnsHandler")
 	if nh == nil {
 		c.Lost("masswallet.NtfnsHandler")
@@ -1568,13 +1568,21 @@ func ruleNoMemoryTipUnderUpdate(c *report.Ctx) {
 		}
 		sort.Slice(fs, func(i, j int) bool { return sk(fs[i]) < sk(fs[j]) })
 		for _, f := range fs {
+			for _, pn := range []string{"PushRemove", "PushImport"} {
+				if pf := p.Fn(pkgWallet, "WalletTaskChan", pn); pf != nil {
+					for _, ps := range calls(f, pf) {
+						bad = true
+						c.Fail(sk(s.Closure)+"~>"+sk(f)+":"+pn, "a background task is queued from inside the write transaction started by "+sk(s.Caller)+": when the commit fails the caller reports the failure but the worker carries the task out anyway (a wallet whose removal was reported failed is deleted)", posOf(c, ps), p.Witness(parent, f)...)
+					}
+				}
+			}
 			for _, st := range fieldStores(f, nh, "bestBlock") {
 				bad = true
 				c.Fail(sk(s.Closure)+"~>"+sk(f)+":bestBlock=", "the in-memory tip is written inside the write transaction started by "+sk(s.Caller)+": when the commit fails the handler believes it is one block further than the database, the next tip is applied on the direct path and rejected by SetSyncedTo, and block processing stalls until restart", posOf(c, st), p.Witness(parent, f)...)
 			}
 		}
 		if !bad {
-			c.OK(sk(s.Closure), "no store to bestBlock reachable", posOf(c, s.Site))
+			c.OK(sk(s.Closure), "no store to bestBlock and no task push reachable", posOf(c, s.Site))
 		}
 	}
 }
